@@ -880,6 +880,11 @@ def one_kill(t, sc, canon, full, ref_obs, inject):
         if not was_killed:
             return {"inject": inject, "killed": False, "bad": [], "done": len(done)}
         ks = classes_of(done, killed, full)
+        # P33 is about the record stores of track / carry-in (five saves, one after the other); a kill between the
+        # record saves of another command explains nothing
+        kind_ = (sc["cmd"][0] if "cmd" in sc else (sc["argv"][1] if len(sc.get("argv", [])) > 1 else ""))
+        if kind_ not in ("track", "carry", "carry-in") and "partial-record-set" in ks:
+            ks.remove("partial-record-set")
         # the same class decided on the STATE the kill left (robust against how the kernel / libc split a
         # file copy into system calls and against which thread's in-flight call the log shows last): a
         # workspace entry that holds a proper prefix of a cache object's bytes is a copy cut short
